@@ -32,17 +32,26 @@ Proof.
   rewrite nth_overflow in H by lia. discriminate.
 Qed.
 
-Lemma jinv_stepT nw jobs w s : jinv nw jobs s -> jinv nw jobs (stepT w s).
+Lemma jinv_jexit nw jobs w s : jinv nw jobs s -> jinv nw jobs (jexit w s).
 Proof.
-  intros ([Lr La] & Pm & Cn & Tg & Ex & Dn). unfold stepT.
-  destruct (nth w (jalive s) false) eqn:Al; [|unfold jinv; split6; auto].
-  apply nth_true_lt in Al. destruct (jq s) as [|it r] eqn:Hq.
-  - unfold jinv; simpl. split6; [ | exact Pm | exact Cn | exact Tg | exact Ex | exact Dn].
-    rewrite upd_length. auto.
-  - unfold jinv; simpl. split6; [ | | exact Cn | exact Tg | exact Ex | exact Dn].
-    + rewrite upd_length. auto.
-    + rewrite Pm. apply (perm_move_12 _ _ _ _ _ it); [reflexivity|]. apply concat_upd_snoc. lia.
+  intros ([Lr La] & Pm & Cn & Tg & Ex & Dn). unfold jinv, jexit; simpl.
+  split6; [ | exact Pm | exact Cn | exact Tg | exact Ex | exact Dn]. rewrite upd_length. auto.
 Qed.
+
+Lemma jinv_stepT nw jobs fixed w s : jinv nw jobs s -> jinv nw jobs (stepT fixed w s).
+Proof.
+  intros H. unfold stepT.
+  destruct (nth w (jalive s) false) eqn:Al; [|exact H].
+  destruct (jvis s); [|destruct fixed; [exact H | apply jinv_jexit; exact H]].
+  destruct (jq s) as [|it r] eqn:Hq; [apply jinv_jexit; exact H|].
+  destruct H as ([Lr La] & Pm & Cn & Tg & Ex & Dn). apply nth_true_lt in Al.
+  unfold jinv; simpl. split6; [ | | exact Cn | exact Tg | exact Ex | exact Dn].
+  - rewrite upd_length. auto.
+  - rewrite Pm, Hq. apply (perm_move_12 _ _ _ _ _ it); [reflexivity|]. apply concat_upd_snoc. lia.
+Qed.
+
+Lemma jinv_stepV nw jobs s : jinv nw jobs s -> jinv nw jobs (stepV s).
+Proof. intros H. exact H. Qed.
 
 Lemma failures_snoc (l : list item) x : failures (l ++ [x]) = failures l ++ (if is_exc x then [x] else []).
 Proof. unfold failures. apply filter_app_single. Qed.
@@ -63,35 +72,35 @@ Proof.
     + intro H. specialize (Dn H). destruct (is_exc it); lia.
 Qed.
 
-Lemma jinv_run nw jobs sched s : jinv nw jobs s -> jinv nw jobs (jrun sched s).
+Lemma jinv_run nw jobs fixed sched s : jinv nw jobs s -> jinv nw jobs (jrun fixed sched s).
 Proof.
   unfold jrun. revert s; induction sched as [|a sched IH]; intros s H; simpl; auto.
-  apply IH. destruct a; simpl; [apply jinv_stepT | apply jinv_stepJP]; exact H.
+  apply IH. destruct a; simpl; [apply jinv_stepT | apply jinv_stepJP | apply jinv_stepV]; exact H.
 Qed.
 
 (* whatever the caller has seen when it stops looking is a state of the full system *)
-Lemma jrun_obs_done sched (s : jstate) : jdone s = true -> jrun_obs sched s = s.
+Lemma jrun_obs_done fixed sched (s : jstate) : jdone s = true -> jrun_obs fixed sched s = s.
 Proof.
   intro D. unfold jrun_obs. induction sched as [|a sched IH]; simpl; auto.
   unfold jstep_obs at 2. rewrite D. exact IH.
 Qed.
 
-Lemma jrun_obs_prefix sched (s : jstate) : exists sched', jrun_obs sched s = jrun sched' s.
+Lemma jrun_obs_prefix fixed sched (s : jstate) : exists sched', jrun_obs fixed sched s = jrun fixed sched' s.
 Proof.
   revert s; induction sched as [|a sched IH]; intro s.
   - exists []. reflexivity.
   - destruct (jdone s) eqn:D.
     + exists []. rewrite jrun_obs_done by exact D. reflexivity.
-    + destruct (IH (jstep s a)) as [sched' H]. exists (a :: sched').
+    + destruct (IH (jstep fixed s a)) as [sched' H]. exists (a :: sched').
       unfold jrun_obs, jrun in *. simpl. unfold jstep_obs at 2. rewrite D. exact H.
 Qed.
 
 (* every schedule: nothing is invented, nothing is delivered twice *)
-Theorem jobs_conservation nw (jobs : list item) sched :
-  exists rest, Permutation jobs (jtaken (jrun sched (jstart nw jobs)) ++ rest).
+Theorem jobs_conservation nw (jobs : list item) fixed sched :
+  exists rest, Permutation jobs (jtaken (jrun fixed sched (jstart nw jobs)) ++ rest).
 Proof.
-  destruct (jinv_run nw jobs sched _ (jinv_start nw jobs)) as (_ & Pm & _).
-  exists (jq (jrun sched (jstart nw jobs)) ++ concat (jrq (jrun sched (jstart nw jobs)))).
+  destruct (jinv_run nw jobs fixed sched _ (jinv_start nw jobs)) as (_ & Pm & _).
+  exists (jq (jrun fixed sched (jstart nw jobs)) ++ concat (jrq (jrun fixed sched (jstart nw jobs)))).
   etransitivity; [exact Pm|]. rewrite app_assoc. apply Permutation_app_comm.
 Qed.
 
@@ -102,12 +111,12 @@ Proof.
 Qed.
 
 (* every schedule: if no job fails, a finished call has delivered every result exactly once, and reports nothing *)
-Theorem jobs_complete nw (jobs : list item) sched s :
-  s = jrun sched (jstart nw jobs) -> jdone s = true -> (forall it, In it jobs -> is_exc it = false) ->
+Theorem jobs_complete nw (jobs : list item) fixed sched s :
+  s = jrun fixed sched (jstart nw jobs) -> jdone s = true -> (forall it, In it jobs -> is_exc it = false) ->
   Permutation (jtaken s) jobs /\ jexc s = None.
 Proof.
-  intros -> D Hok. destruct (jinv_run nw jobs sched _ (jinv_start nw jobs)) as (_ & Pm & Cn & Tg & Ex & Dn).
-  set (s := jrun sched (jstart nw jobs)) in *. specialize (Dn D).
+  intros -> D Hok. destruct (jinv_run nw jobs fixed sched _ (jinv_start nw jobs)) as (_ & Pm & Cn & Tg & Ex & Dn).
+  set (s := jrun fixed sched (jstart nw jobs)) in *. specialize (Dn D).
   assert (Hf : failures (jtaken s) = []).
   { rewrite app_assoc in Pm. apply (failures_sub _ _ _ Pm). apply failures_nil_iff. exact Hok. }
   rewrite Hf in Cn. simpl in Cn. rewrite app_assoc in Pm. apply perm_length_sub in Pm; [|lia].
@@ -115,12 +124,12 @@ Proof.
 Qed.
 
 (* every schedule: if some job fails, a finished call reports an exception of one of ITS failing jobs *)
-Theorem jobs_exception_reported nw (jobs : list item) sched s :
-  s = jrun sched (jstart nw jobs) -> jdone s = true -> (exists it, In it jobs /\ is_exc it = true) ->
+Theorem jobs_exception_reported nw (jobs : list item) fixed sched s :
+  s = jrun fixed sched (jstart nw jobs) -> jdone s = true -> (exists it, In it jobs /\ is_exc it = true) ->
   exists it, jexc s = Some it /\ In it jobs /\ is_exc it = true.
 Proof.
-  intros -> D [bad [Hb He]]. destruct (jinv_run nw jobs sched _ (jinv_start nw jobs)) as (_ & Pm & Cn & Tg & Ex & Dn).
-  set (s := jrun sched (jstart nw jobs)) in *. specialize (Dn D).
+  intros -> D [bad [Hb He]]. destruct (jinv_run nw jobs fixed sched _ (jinv_start nw jobs)) as (_ & Pm & Cn & Tg & Ex & Dn).
+  set (s := jrun fixed sched (jstart nw jobs)) in *. specialize (Dn D).
   rewrite Ex. destruct (last_exc (jtaken s) None) as [it|] eqn:Hx.
   - exists it. split; auto. apply last_exc_some in Hx. destruct Hx as [Hi Hx]. split; auto.
     apply (Permutation_in it (Permutation_sym Pm)). apply in_or_app; right. apply in_or_app; right. exact Hi.
@@ -243,18 +252,52 @@ Qed.
 
 (* run_jobs + ResultBuilder / sorted: for EVERY schedule (which worker takes which job, when the main loop looks)
    a finished call on non-failing jobs gives exactly the serial results in job order *)
-Theorem jobs_keyed_serial nw (outs : list (outcome R E)) sched s :
-  s = jrun sched (jstart nw (enum outs)) -> jdone s = true -> (forall e, ~ In (Exc e) outs) ->
+Theorem jobs_keyed_serial nw (outs : list (outcome R E)) fixed sched s :
+  s = jrun fixed sched (jstart nw (enum outs)) -> jdone s = true -> (forall e, ~ In (Exc e) outs) ->
   summaries (length outs) (good (jtaken s)) = map Some outs /\ sorted_results (good (jtaken s)) = enum outs.
 Proof.
   intros Hs D Hok.
   assert (Hno : forall it : item, In it (enum outs) -> is_exc it = false).
   { intros [k [r|e]] Hi; auto. exfalso. apply (Hok e). rewrite <- (map_snd_enum outs).
     change (Exc e) with (snd (k, @Exc R E e)). apply in_map. exact Hi. }
-  destruct (jobs_complete nw _ sched s Hs D Hno) as [P _].
+  destruct (jobs_complete nw _ fixed sched s Hs D Hno) as [P _].
   rewrite good_all.
   - split; [apply keyed_summaries | apply keyed_sorted]; exact P.
   - intros it Hi. apply Hno. apply (Permutation_in it P). exact Hi.
+Qed.
+
+(* ---------------- the start-up race of Process.run ---------------- *)
+
+(* REFUTED termination, code as it is: a worker that looks at the shared queue before the parent's feeder thread
+   has flushed the jobs exits; when every worker does, the main loop polls forever *)
+Lemma stuck_forever (s : jstate) k : stepJP s = s -> jrun false (repeat JP k) s = s.
+Proof.
+  intro H. unfold jrun. induction k as [|k IH]; simpl; auto. rewrite H. exact IH.
+Qed.
+
+(* the repaired worker loop (blocking get, one StopCommand per worker queued behind the jobs): a worker only
+   leaves when every job has been taken -- in every reachable state with jobs still queued all workers are there *)
+Definition workers_stay (s : jstate) : Prop := jq s <> [] -> Forall (fun b => b = true) (jalive s).
+
+Lemma Forall_upd {A} (P : A -> Prop) (l : list A) i f : Forall P l -> (forall x, P x -> P (f x)) -> Forall P (upd l i f).
+Proof.
+  intros H Hf. revert i; induction H as [|x l Hx Hl IH]; intros [|i]; simpl; constructor; auto.
+Qed.
+
+Lemma workers_stay_run nw (jobs : list item) sched :
+  workers_stay (jrun true sched (jstart nw jobs)).
+Proof.
+  assert (H0 : workers_stay (jstart nw jobs)).
+  { intros _. unfold jstart; simpl. clear. induction nw; simpl; constructor; auto. }
+  unfold jrun. generalize dependent (jstart nw jobs). induction sched as [|a sched IH]; intros s H; simpl; auto.
+  apply IH. destruct a as [w| |]; simpl.
+  - unfold stepT. destruct (nth w (jalive s) false); [|exact H]. destruct (jvis s); [|exact H].
+    destruct (jq s) as [|it r] eqn:Hq.
+    + intro Hne. simpl in Hne. rewrite Hq in Hne. congruence.
+    + intros _. simpl. apply H. rewrite Hq. discriminate.
+  - unfold stepJP. destruct (jdone s); [exact H|]. destruct (qnth (jrq s) (jcur s)); [|exact H].
+    destruct (S (jcur s) <? length (jrq s)); exact H.
+  - exact H.
 Qed.
 
 End Jobs.
